@@ -110,6 +110,49 @@ func checkC07(c *Ctx, r *Report) {
 		r.Check(iAct >= 0 && iPop > iAct, "C07.b", "R2 ORDER", b.name+"/action-before-pop", c.pos(b.pos),
 			"inside a case the action runs while the right-hand side's entries are still on the stack; the pop follows", "the pop precedes the action text: $n would read entries that are already above the stack pointer")
 	}
+	// $$ starts from the zero value at every reduction: the entry a case fills is freshly allocated, not reused
+	for _, sk := range quickSkeletons(st) {
+		recv := map[bool]string{true: "Context", false: ""}[sk.V.Object]
+		rf := sk.FuncDecl(recv, "ReduceFunc")
+		name := "skeleton " + sk.V.Name + "/ReduceFunc/fresh-$$-entry"
+		if rf == nil || sk.Info == nil {
+			r.Undecided("C07.b", "R12 STATE-INVENTORY", name, sk.pos(token.NoPos), "no ReduceFunc")
+			continue
+		}
+		fresh := false
+		why := "no definition of the entry that receives $$"
+		for _, s := range rf.Body.List {
+			as, ok := s.(*ast.AssignStmt)
+			if !ok || len(as.Lhs) != 1 || len(as.Rhs) != 1 {
+				continue
+			}
+			id, ok := as.Lhs[0].(*ast.Ident)
+			if !ok || id.Name != "dollarDolar" {
+				continue
+			}
+			rhs := unparen(as.Rhs[0])
+			if u, ok := rhs.(*ast.UnaryExpr); ok && u.Op == token.AND {
+				if cl, ok := unparen(u.X).(*ast.CompositeLit); ok && len(cl.Elts) == 0 {
+					fresh = true
+				} else {
+					why = "the entry that receives $$ is `" + printNode(sk.Fset, rhs) + "`, storage that outlives the reduction: a rule whose action does not assign $$ (an empty rule) then yields the previous reduction's value instead of the zero value"
+				}
+			} else {
+				why = "the entry that receives $$ is `" + printNode(sk.Fset, rhs) + "`"
+			}
+			break
+		}
+		r.Check(fresh, "C07.b", "R12 STATE-INVENTORY", name, sk.pos(rf.Pos()), "every reduction starts with a freshly allocated, zero-valued entry for $$", why)
+	}
+	if st.TS != nil && st.TS.Eval != nil {
+		sh, pos := fieldShapeOf(st.TS.Eval, "ReduceFunc")
+		txt := ""
+		for _, p := range flatten(sh) {
+			txt += p.lit
+		}
+		ok := strings.Contains(txt, "let dollarDolar = new StateSym(-1,-1)") && strings.Contains(txt, "dollarDolar.ValType = new ValType()")
+		r.Check(ok, "C07.b", "TS STATE", "typescript/ReduceFunc/fresh-$$-entry", c.pos(pos), "TypeScript: a new StateSym with a new ValType per reduction", "TypeScript ReduceFunc does not create a new entry and value per reduction")
+	}
 	// driver order
 	for _, sk := range quickSkeletons(st) {
 		name := "skeleton " + sk.V.Name + "/Parser"
